@@ -5,7 +5,7 @@ From Coq Require Import String.
 Open Scope string_scope.
 
 Definition verified_execute_Execute : string :=
-  "(MakeChan x0 maxResultBuffer)(Defer (Close x0))(MakeChan x1 maxResultBuffer)(Defer (Close x1))(MakeChan x2 0)(Defer (Close x2))(If {(Return)})(Range {(Add x3 1)(Go executeStep)})(Go {(For {(Select (On (Recv x0) {(If {(Return)})(Call executorInsertObject)(Switch (Case {(Send x1)})(Case {(Send x1)})(Case {(Done x3)}))})(On (Recv x1) {(If {(Lock x4)(If {(Append errs)} else {(Append errs)})(Unlock x4)(Done x3)})})(On (Recv x2) {(Return)}))})})(Wait x3)(Lock x4)(Defer (Unlock x4))(If {(Return)})(Return)".
+  "(MakeChan x0 maxResultBuffer)(Defer (Close x0))(MakeChan x1 0)(Defer (Close x1))(If {(Return)})(Range {(Add x2 1)(Go executeStep)})(Go {(For {(Select (On (Recv x0) {(If {(Return)})(Call executorInsertObject)(Switch (Case {})(Case {})(Case {(Done x2)}))})(On (Recv x1) {(Return)}))})})(Wait x2)(Lock x3)(Defer (Unlock x3))(If {(Return)})(Return)".
 
 Definition verified_execute_executeStep : string :=
   "(Call executeOneStep)(Add x0 len)(Send x1)(Range {(Go executeStep)})".
